@@ -231,20 +231,26 @@ func run12(h *hist12, res *result, checkAll bool) (final state12, ok bool) {
 					ok = false
 					return nil
 				}
-				// for two-table Additions: is each table on its own acceptable in this state?
+				// for two-table Additions: would the tables be acceptable one after the other?
 				cls := ""
 				if step.Form == "split" {
-					each := true
+					seq := true
+					cur := s
 					for _, r := range step.Recs {
-						if ok1, _ := modelApply(s, []rec12{r}); !ok1 {
-							each = false
+						ok1, nxt := modelApply(cur, []rec12{r})
+						if !ok1 {
+							seq = false
+							break
 						}
+						cur = nxt
 					}
-					if !want && each {
-						cls = ":conflict-between-tables-of-one-addition"
-					} else if want && !each {
-						cls = ":table-depends-on-earlier-table-of-same-addition"
-					} else {
+					switch {
+					case want && !seq:
+						// legal as a whole, but an earlier table is only legal because of a later one
+						cls = ":table-depends-on-later-table-of-same-addition"
+					case !want && seq:
+						cls = ":impossible" // sequentially legal implies legal as a whole
+					default:
 						cls = ":other"
 					}
 				}
